@@ -75,7 +75,10 @@ func body(r *sim.Run) {
 	}
 	servers := []string{"a.example", "b.example", "a.example"}
 	// user IDs are case-sensitive: include pairs that differ only in case
-	users := []string{"@alice:a.example", "@bob:a.example", "@alice:b.example", "@Alice:a.example", "@alice:A.example"}
+	users := []string{"@alice:a.example", "@bob:a.example", "@alice:b.example", "@Alice:a.example", "@alice:A.example", "@alice:a.example.org"}
+	// validation may also name users no token was issued for: a proper prefix
+	// of an issued user ID and the empty user ID
+	askUsers := append([]string{"@alice:a.exampl", "@alice:a.example.o", ""}, users...)
 	// Start at a tape-chosen second inside the minute / hour so that minute
 	// and hour boundaries are crossed at varied offsets.
 	time.Sleep(time.Duration(sim.Pick(t, []int{0, 1, 30, 58, 59, 3540, 3599, 86399})) * time.Second)
@@ -124,7 +127,7 @@ func body(r *sim.Run) {
 			case 1:
 				si = t.Intn(nsec)
 			case 2:
-				u = sim.Pick(t, users)
+				u = sim.Pick(t, askUsers)
 			}
 			err := tokens.ValidateToken(tokens.TokenOptions{ServerPrivateKey: secrets[si], ServerName: servers[si], UserID: u}, tk.token)
 			age := time.Since(tk.at)
